@@ -505,6 +505,17 @@ def fetchAndProcess (ph : Phys) (readp spanp : Bool) : Nat → M Int
 def Phys.work (ph : Phys) : Nat := 2 * ph.pages.size + ph.pages.foldl (fun a p => a + p.pk.length) 0 + 16
 def fpFuel (ph : Phys) : Nat := ph.work
 
+/-- samples a read can hand out right now -/
+def readAvail (vf : VF) : Int :=
+  if vf.ready = INITSET then (match vf.vd with | some d => d.pcmout | none => 0) else 0
+
+/-- the consuming step of `ov_read_float`: at most `length` of the available samples, the decoder's
+    read cursor and the position move together -/
+def readTake (vf : VF) (length : Int) : Int × VF :=
+  let avail := readAvail vf
+  let n := if avail > length then length else avail
+  (n, { vf with vd := vf.vd.map (fun d => (d.read n).1), pcm_offset := vf.pcm_offset + shl n vf.hs })
+
 /-- `ov_read_float` / `ov_read` as far as counts and positions go: (return value, link) -/
 def readFloat (ph : Phys) (length : Int) : M (Int × Int) := do
   let vf ← get
@@ -514,14 +525,11 @@ def readFloat (ph : Phys) (length : Int) : M (Int × Int) := do
     | 0 => return (FUEL, -1)
     | f' + 1 => do
         let vf ← get
-        let avail := if vf.ready = INITSET then (match vf.vd with | some d => d.pcmout | none => 0) else 0
+        let avail := readAvail vf
         if avail ≠ 0 then
-          let n := if avail > length then length else avail
-          match vf.vd with
-          | some d =>
-              set { vf with vd := some (d.read n).1, pcm_offset := vf.pcm_offset + shl n vf.hs }
-              return (n, vf.current_link)
-          | none => return (OV_EFAULT, -1)
+          let (n, vf') := readTake vf length
+          set vf'
+          return (n, vf.current_link)
         else
           let r ← fetchAndProcess ph true true (fpFuel ph)
           if r = OV_EOF then return (0, -1)
